@@ -1,11 +1,11 @@
 """C13 - removing a validator moves its whole stake: structural clauses (DESIGN 6, C13)."""
 from ..authz import GuardAnalysis
-from ..callgraph import explore, storage_effects, message_effects, call_sites, site_guarded
+from ..callgraph import explore, storage_effects, message_effects, call_sites, site_guarded, always_passes
 from ..expr import show, find
 from .common import entry, variant_env, stored, where, arm_handler
 from .msgs import wasm_execute, coin_parts, vec_elems
 from .C10 import mk_pass, RGCFG, RGREG
-from .msgs import push_sequences, response_sequences
+from .msgs import push_sequences, response_sequences, collection_repr
 from ..iters import item_source, base_of, droppers, nth_of, strip_coll
 from .hub_common import early_exits
 
@@ -76,8 +76,8 @@ def run(prog, world, sem, rep):
     oks = [bb for (bb, idx, kind, x) in sem.ret_sites(be) if kind == "ok" and bb in h.blocks]
     rep.ob("C13.b", "never removes the last validator", bool(pe) and bool(oks) and not any(b in r for b in oks),
            "a success exit is reachable without observing a non-empty remaining list" if (not pe or any(b in r for b in oks)) else "all %d success exits behind !remaining.is_empty()" % len(oks), where(h.body))
-    # ---- C13.c
-    pc = call_sites(sem, [h], lambda k: k.endswith("common::calculate_delegations"))
+    # ---- C13.c  (the planner call and the message construction may sit in the handler or in a helper it calls)
+    pc = call_sites(sem, vs, lambda k: k.endswith("common::calculate_delegations"))
     deleg = None
     if len(pc) != 1:
         rep.ob("C13.c", "planner call", False, "expected one planner call, found %d" % len(pc), where(h.body))
@@ -87,16 +87,17 @@ def run(prog, world, sem, rep):
         okq = False
         det = show(amt, 5)
         if amt.op == "field" and amt.info[0] == "amount" and amt.args[0].op == "field" and amt.args[0].info[0] == "amount":
-            q = amt.args[0].args[0]
-            if q.op == "call" and q.info.endswith("QuerierWrapper::query_delegation"):
+            qs = find(amt.args[0].args[0], lambda y: y.op == "call" and y.info.endswith("QuerierWrapper::query_delegation"))
+            if qs:
+                q = qs[0]
                 okq = sem.label(q.args[1]) == HUB and sem.label(q.args[2]) is not None and sem.label(q.args[2])[4] == ("address",)
                 deleg = q
                 det = "query_delegation(%s, %s).amount.amount" % (sem.label(q.args[1]), sem.label(q.args[2])[4] if sem.label(q.args[2]) else None)
-        rep.ob("C13.c", "whole delegation is redistributed", okq, det, where(h.body, pbb))
+        rep.ob("C13.c", "whole delegation is redistributed", okq, det, where(pv.body, pbb))
         vals = strip_perm(world, pe_.args[1])
         if vals.op == "proj":
             vals = vals.args[0]
-        rep.ob("C13.c", "redistribution over the remaining registered validators", vals.op == "call" and vals.info == cpath, "targets from %s" % show(vals, 3), where(h.body, pbb))
+        rep.ob("C13.c", "redistribution over the remaining registered validators", vals.op == "call" and vals.info == cpath, "targets from %s" % show(vals, 3), where(pv.body, pbb))
     # message contents
     rp = None
     ug = None
@@ -114,8 +115,8 @@ def run(prog, world, sem, rep):
         d = dict(zip(payload.info[2], payload.args))
         sl = sem.label(d["src_validator"])
         rep.ob("C13.c", "source validator = the removed address", sl is not None and sl[0] == "param" and sl[4] == ("address",), "src %s" % (sl,), where(v.body, bb))
-        seqs = push_sequences(world, d["redelegations"])
-        items = [x for s in seqs for x in s]
+        cr = collection_repr(world, d["redelegations"])
+        items = [cr] if cr is not None else [x for s0 in push_sequences(world, d["redelegations"]) for x in s0]
         okp = bool(items)
         det = "no redelegation entries"
         for it in items:
@@ -126,19 +127,19 @@ def run(prog, world, sem, rep):
                 continue
             dst, coin = t.args
             camt, cden = coin_parts(world, sem, coin)
-            ca = world.norm(camt, 0, False)
-            c1 = dst.op == "field" and dst.info[0] == "address" and dst.args[0].op == "call" and dst.args[0].info == "std::ops::Index::index"
-            c2 = ca.op == "call" and ca.info == "std::ops::Index::index"
-            same = c1 and c2 and dst.args[0].args[1] == ca.args[1]
-            plan = c2 and ca.args[0].op == "field" and ca.args[0].info[0] == "1" and bool(find(ca.args[0], lambda y: y.op == "call" and y.info.endswith("common::calculate_delegations")))
-            tv = strip_perm(world, dst.args[0].args[0]) if c1 else None
+            nd = nth_of(world, dst.args[0]) if dst.op == "field" and dst.info[0] == "address" else None
+            na = nth_of(world, world.norm(camt, 0, False))
+            same = nd is not None and na is not None and nd[1] == na[1]
+            pl = world.norm(na[0], 0, False) if na is not None else None
+            plan = pl is not None and pl.op == "field" and pl.info[0] == "1" and bool(find(pl, lambda y: y.op == "call" and y.info.endswith("common::calculate_delegations")))
+            tv = strip_perm(world, nd[0]) if nd is not None else None
             if tv is not None and tv.op == "proj":
                 tv = tv.args[0]
             tgt = tv is not None and tv.op == "call" and tv.info == cpath
             dn = world.norm(cden, 0, False)
             den = dn.op == "field" and dn.info[0] == "denom" and deleg is not None and bool(find(dn, lambda y: y == deleg))
             okp = okp and same and plan and tgt and den
-            det = "same index: %s, amount from plan: %s, target from remaining validators: %s, denom of the delegation: %s" % (same, plan, tgt, den)
+            det = "same position: %s, amount from plan: %s, target from remaining validators: %s, denom of the delegation: %s" % (same, plan, tgt, den)
         rep.ob("C13.c", "entries pair remaining[i].address with plan[i] in the delegation's denom", okp, det, where(v.body, bb))
     # ---- C13.d
     okt = rp is not None and ug is not None and rp[2][0] == HUB and ug[2][0] == HUB and vec_elems(world, rp[2][2]) == [] and vec_elems(world, ug[2][2]) == []
@@ -146,39 +147,38 @@ def run(prog, world, sem, rep):
     ret = world.ret_expr(h.body)
     ordered = False
     det = "anchor-lost: response message list"
-    seqs = [s for alt in world._ok_alts(ret, "ok", 0, False) for s in response_sequences(world, alt)]
+    seqs = [s for alt in world._ok_alts(ret, "ok", 0, False) for s in response_sequences(world, h.resolve(alt))]
     if seqs:
         kinds = []
         for s in seqs:
             ks = []
             for x in s:
-                xi = world.ident(h.resolve(x))
+                xi = world.ident(x)
                 inner = world.ident(xi.args[0]) if xi.op == "adt" and xi.info[0].endswith("CosmosMsg") and xi.args else xi
                 r0 = wasm_execute(world, sem, inner) if inner.op == "adt" else None
                 ks.append(r0[1].info[1] if r0 and r0[1] is not None and r0[1].op == "adt" else "?")
-            kinds.append(ks)
+            if ks not in kinds:
+                kinds.append(ks)
         ordered = all(k in ([], ["RedelegateProxy", "UpdateGlobalIndex"]) for k in kinds) and ["RedelegateProxy", "UpdateGlobalIndex"] in kinds
         det = "message sequences %s" % kinds
     rep.ob("C13.d", "RedelegateProxy precedes UpdateGlobalIndex", ordered, det, where(h.body))
-    # early Ok without messages only on can_redelegate < amount
-    early = [(bb, x) for (bb, idx, kind, x) in sem.ret_sites(be) if kind == "ok" and bb in h.blocks and not find(x, lambda y: y.op == "call" and y.info.endswith("add_messages"))]
 
-    def fcr(f, resolve):
+    # message-less success only when redelegation is impossible: from the handler's entry, every success exit passes the construction
+    # of the RedelegateProxy message, except through the edges `can_redelegate < amount`, "no delegation" and "query failed"
+    def allowed(f, resolve):
         if f[0] == "cmp" and f[1] == "Lt":
-            a = world.norm(f[2], 0, False)
-            b = world.norm(f[3], 0, False)
+            a = world.norm(resolve(f[2]), 0, False)
+            b2 = world.norm(resolve(f[3]), 0, False)
             return a.op == "field" and a.info[0] == "amount" and a.args[0].op == "field" and a.args[0].info[0] == "can_redelegate" and \
-                b.op == "field" and b.info[0] == "amount" and b.args[0].op == "field" and b.args[0].info[0] == "amount"
+                b2.op == "field" and b2.info[0] == "amount" and b2.args[0].op == "field" and b2.args[0].info[0] == "amount"
+        if f[0] == "variant" and f[2] in ("None", "Err"):
+            return bool(find(world.norm(resolve(f[1]), 0, False), lambda y: y.op == "call" and y.info.endswith("QuerierWrapper::query_delegation")) or
+                        (f[1].op == "call" and f[1].info.endswith("QuerierWrapper::query_delegation")))
         return False
-    pe2 = set()
-    for blk in h.body.blocks:
-        if blk.term.kind == "switch" and blk.idx in be.cfg.live:
-            for succ, fl in sem.edge_facts(be, blk.idx).items():
-                if any(fcr(f, h.resolve) for f in fl):
-                    pe2.add((blk.idx, succ))
-    r2 = be.cfg.reach([0], removed=pe2)
-    rep.ob("C13.d", "message-less success only when redelegation is impossible", bool(pe2) and len(early) == 1 and early[0][0] not in r2,
-           "early Ok exits %d; behind can_redelegate < amount: %s" % (len(early), bool(pe2) and all(b not in r2 for b, _ in early)), where(h.body))
+    okm, dm = (False, "anchor-lost: no RedelegateProxy message")
+    if rp is not None:
+        okm, dm = always_passes(sem, rp[0], rp[1], allowed, h)
+    rep.ob("C13.d", "message-less success only when redelegation is impossible", okm, dm, where(h.body))
     # ---- C13.e hub side
     hex_ = entry(prog, "hub")
     hvs = explore(sem, hex_, variant_env(prog, hex_, "RedelegateProxy"))
